@@ -1,6 +1,6 @@
 SPECIFICATION Spec
 CONSTANTS
-  Patterns <- P16
+  Patterns <- PUp
   Ids = {"i1", "i2", "i3"}
   Haystacks <- H4
   KeepSets = {{"i2", "i3"}}
